@@ -1,7 +1,12 @@
 use std::fmt;
 use std::io::ErrorKind;
 use std::ptr;
+#[cfg(not(may_verif))]
 use std::sync::atomic::{AtomicBool, AtomicPtr, Ordering};
+#[cfg(may_verif)]
+use crate::verif::atomic::{AtomicBool, Ordering};
+#[cfg(may_verif)]
+use std::sync::atomic::{AtomicPtr};
 use std::sync::Arc;
 use std::time::Duration;
 
